@@ -512,13 +512,18 @@ fn main() {
     let mut files: BTreeMap<String, SrcFile> = BTreeMap::new();
     let mut out = String::new();
     out.push_str("// GENERATED on every run by /verif/tools/vx from the current /repo/src — do not edit.\n");
+    if !std::env::var("VX_PLAIN").is_ok() {
     out.push_str("#![allow(unused_imports, unused_variables, unused_mut, dead_code, unused_parens, non_snake_case, unreachable_code, unused_assignments, unreachable_patterns, unused_braces)]\n");
-    out.push_str("use vstd::prelude::*;\n");
+    }
+    let plain = std::env::var("VX_PLAIN").is_ok(); // items only, as ordinary Rust (for Kani harness crates)
+    if !plain {
+        out.push_str("use vstd::prelude::*;\n");
+    }
     for u in &unit.uses {
         let _ = writeln!(out, "use {u};");
     }
     let mut sections: Vec<serde_json::Value> = vec![];
-    for p in &unit.prelude {
+    for p in unit.prelude.iter().filter(|_| !plain) {
         let path = format!("{verif_root}/prelude/{p}");
         let t = std::fs::read_to_string(&path).unwrap_or_else(|e| die("malformed-unit", &format!("{path}: {e}")));
         let l0 = out.lines().count() + 1;
@@ -529,7 +534,7 @@ fn main() {
         }
         sections.push(json!({"kind":"prelude","file":p,"line_start":l0,"line_end":out.lines().count()}));
     }
-    for s in &unit.spec {
+    for s in unit.spec.iter().filter(|_| !plain) {
         let path = unit_dir.join(s);
         let t = std::fs::read_to_string(&path).unwrap_or_else(|e| die("malformed-unit", &format!("{}: {e}", path.display())));
         let l0 = out.lines().count() + 1;
@@ -540,7 +545,9 @@ fn main() {
         }
         sections.push(json!({"kind":"spec","file":s,"line_start":l0,"line_end":out.lines().count()}));
     }
-    out.push_str("verus! {\n");
+    if !plain {
+        out.push_str("verus! {\n");
+    }
     let mut items_json = vec![];
     for it in &unit.items {
         let module = it.path.split("::").next().unwrap().to_string();
@@ -568,7 +575,9 @@ fn main() {
             "property": it.property,
         }));
     }
-    out.push_str("} // verus!\nfn main() {}\n");
+    if !plain {
+        out.push_str("} // verus!\nfn main() {}\n");
+    }
 
     // obligation marker map
     let mut obls = vec![];
